@@ -99,10 +99,11 @@ unsigned long g_eval_str[G_MAXEVAL][4];
 /* Value& Expression::value(Context&) -- any node, as seen by its parent.
  * Normal return: a valid value of ANY tag, null or not, temporary or variable-owned.
  * Exceptional return: only a RuntimeError. */
+const void *g_eval_ctx_seen;   /* the context the last evaluation ran in */
 struct Value *VCALL_Expression_value(struct Expression *e, struct Context *ctx)
 __CPROVER_requires(__exc == 0)
 __CPROVER_requires(g_eval_n >= 0 && g_eval_n < G_MAXEVAL)
-__CPROVER_assigns(g_eval_n, g_eval_ret[g_eval_n], g_eval_snap[g_eval_n], g_eval_node[g_eval_n], g_eval_size[g_eval_n], g_eval_payload, __exc, __exc_type, __exc_obj ASG_PAYLOAD_IMAGINARY ASG_PAYLOAD_LITERAL)
+__CPROVER_assigns(g_eval_n, g_eval_ret[g_eval_n], g_eval_snap[g_eval_n], g_eval_node[g_eval_n], g_eval_size[g_eval_n], g_eval_payload, g_eval_ctx_seen, __exc, __exc_type, __exc_obj ASG_PAYLOAD_IMAGINARY ASG_PAYLOAD_LITERAL)
 __CPROVER_assigns(g_eval_n == 0: VALUE_FIELDS(&g_operand0); g_eval_n == 1: VALUE_FIELDS(&g_operand1); g_eval_n == 2: VALUE_FIELDS(&g_operand2); g_eval_n == 3: VALUE_FIELDS(&g_operand3))
 __CPROVER_ensures(__exc == 0 || __exc == 1)
 __CPROVER_ensures(__exc == 1 ==> (PTR_EQ(__exc_type, G2C_EXC_RuntimeError) && IS_FRESH(__exc_obj, sizeof(struct RuntimeError)) && g_eval_n == __CPROVER_old(g_eval_n)))
@@ -119,6 +120,8 @@ EVAL_EXTRA_CLAUSE
 __CPROVER_ensures(__exc == 0 ==> g_eval_n == __CPROVER_old(g_eval_n) + 1)
 __CPROVER_ensures(__exc == 0 ==> PTR_EQ(g_eval_ret[__CPROVER_old(g_eval_n)], __CPROVER_return_value))
 __CPROVER_ensures(__exc == 0 ==> PTR_EQ(g_eval_node[__CPROVER_old(g_eval_n)], e))
+/* ... in the context it was given (the last one is remembered, also when the evaluation fails) */
+__CPROVER_ensures(PTR_EQ(g_eval_ctx_seen, ctx))
 /* the snapshot is DEFINED as the returned value's bits (assignment, so that the solver sees one term) */
 __CPROVER_ensures(__exc == 0 ==> (SET_EQ(g_eval_snap[__CPROVER_old(g_eval_n)]._flags, __CPROVER_return_value->_flags) &&
                                   SET_EQ(g_eval_snap[__CPROVER_old(g_eval_n)]._type._major, __CPROVER_return_value->_type._major) &&
